@@ -294,7 +294,7 @@ Section Handshake.
   (* ---------- authenticity of datagrams and the attacker ---------- *)
   (* d opens under key k: its body was sealed under k with exactly the header it travels with *)
   Definition authentic (k : Z) (d : dgram) : Prop :=
-    exists p, d_body d = Sealed k (d_hdr d) p /\ h_len (d_hdr d) = len p.
+    exists p, d_body d = Sealed k (d_hdr d) p /\ len p <= h_len (d_hdr d) <= len p + 16.
 
   (* Dolev-Yao attacker for the server hello: it knows everything that was sent (`seen`) and its
      own private keys `akeys`; it can replay, re-sign with its own keys, alter any field; what it
